@@ -5,7 +5,7 @@ import scen_common
 PID = "C03"
 PROP_V = ["Props/Properties_C03.v", "Props/Properties_C03b.v", "Props/Properties_C03c.v"]
 GEN_MODULES = ["Consts", "Sites", "Orders"]
-FLOW_FILES = ['mu.c', 'mu_wait.c', 'once.c', 'counter.c']
+FLOW_FILES = ['mu.c', 'mu_wait.c', 'once.c', 'counter.c', 'cv.c', 'note.c', 'wait.c']
 REPLAY_HINT = "VRT_SEED=<seed> [env] _work/h/<scenario>: the runtime's vector-clock detector (harness/rt/vrt.c) reports the unordered pair"
 PARTIAL = ["execution-level hand-off theorems: mutex over MuModel (C03_mutex_handoff) and over MuWaitModel = mu.c + mu_wait.c, including release by "
            "blocking in nsync_mu_wait, unlock_without_wakeup, re-acquisition on wake-up / timeout / cancel and the two plain release stores of "
